@@ -65,6 +65,8 @@ def main():
         out['solver_s'] = round(qstat['s'], 3)
         out['ext_seen'] = {k: sorted(v) for k, v in ch_ext.SEEN.items()}
         out['ext_stats'] = dict(ch_ext.STATS)
+        from vf.engine import rope as _rope
+        out['ext_stats'].update({'rope_' + k: v for k, v in _rope.STATS.items()})
         out['while_sites'] = len(loader.WHILE_SITES)
         out['fuel_sites_hit'] = sorted(loader.FUEL.sites_seen)
     except BaseException as e:  # noqa
